@@ -264,18 +264,6 @@ def fieldsInModel : Fields → Bool
   | .cons _ t rest => tyInModel t && fieldsInModel rest
 end
 
-mutual
-/-- all pointers removed (`buildFieldsInfo` and the re-casing of keys look through pointers of any depth). -/
-def derefAll : Ty → Ty
-  | .prim p => .prim p
-  | .ptr t => derefAll t
-  | .slice t => .slice (derefAll t)
-  | .map t => .map (derefAll t)
-  | .struct fs => .struct (derefAllFields fs)
-def derefAllFields : Fields → Fields
-  | .nil => .nil
-  | .cons f t rest => .cons f (derefAll t) (derefAllFields rest)
-end
 
 mutual
 def tyHasPtrElem : Ty → Bool
